@@ -105,6 +105,10 @@ def draw_fault(rng, rec):
     if fmt in ("minishark",):
         kinds = [k for k in kinds if k not in ("dup_component", "missing_component")]
     kind = rng.choice(kinds)
+    if kind == "dup_component" and fmt == "peer" and rec.get("codes", {}).get("N", "").isdigit() and rng.random() < 0.6:
+        # biased: a north code on the axis, where the duplicated horizontal can carry the axis' other name (000/360, 090/270)
+        ns = rng.choice([0, 360])
+        rec["codes"] = {"N": str(ns), "E": "90", "Z": rec["codes"]["Z"]}
     return {"kind": kind, "rec": rec["idx"], "file": rng.randrange(3), "frac": rng.random(),
             "bias": rng.choice(["uniform", "header", "boundary", "tail"]), "k": rng.choice([1, 2, 5, -1, -3]),
             "bit": rng.randrange(8), "comp": rng.choice(["N", "E", "Z"]), "seed": rng.randrange(1 << 30)}
@@ -336,7 +340,7 @@ def encode_with_comp_fault(spec):
                 if kind == "missing_component":
                     continue
                 new_code = codes[other]
-                if codes["N"].isdigit() and int(codes["N"]) % 360 == 0 and comp in ("N", "E") and len(name) % 2 == 0:
+                if codes["N"].isdigit() and int(codes["N"]) % 360 == 0 and comp in ("N", "E") and spec.get("k", 0) % 3 != 0:
                     # the same axis under its other name: north twice as 000 and 360, or east and west (090 and 270)
                     new_code = ("000" if codes["N"] == "360" else "360") if comp == "E" else str((int(codes["E"]) + 180) % 360)
                 b = b.replace((", " + codes[comp] + "\n").encode(), (", " + new_code + "\n").encode(), 1)
